@@ -777,24 +777,53 @@ func checkAuthentication(validCredentials []Credentials, expectedRegion string, 
 			slog.DebugContext(r.Context(), "Streaming payload algorithm does not match request signature algorithm")
 			return nil, false
 		}
-		// aws-chunked is a transport encoding, not object metadata: strip it
-		// whether it is the only encoding or the first of several.
-		contentEncodingHeader = stripAwsChunkedContentEncoding(contentEncodingHeader)
-		if contentEncodingHeader != "" {
-			r.Header.Set("Content-Encoding", contentEncodingHeader)
-		} else {
-			r.Header.Del("Content-Encoding")
-		}
-		r.Header.Set("Content-Length", r.Header.Get("x-amz-decoded-content-length"))
-		r.Header.Del("x-amz-decoded-content-length")
-		trailingHeader := contentSHA256 == contentSHA256StreamingUnsignedPayloadTrailing || contentSHA256 == contentSHA256StreamingPayloadTrailing || contentSHA256 == contentSHA256StreamingECDSAPayloadTrailing
 		hasTrailingHeaderWithSignature := contentSHA256 == contentSHA256StreamingPayloadTrailing || contentSHA256 == contentSHA256StreamingECDSAPayloadTrailing
 		skipChunkValidation := contentSHA256 == contentSHA256StreamingUnsignedPayloadTrailing || contentSHA256 == contentSHA256StreamingUnsignedPayload
-		trailerChecksumName := strings.ToLower(strings.TrimSpace(r.Header.Get(trailerHeader)))
-		r.Body = newAwsChunkReadCloser(r.Context(), r.Body, parameters.timestamp, scope.value, parameters.signature, verifier, trailingHeader, hasTrailingHeaderWithSignature, skipChunkValidation, trailerChecksumName)
+		decodeAwsChunkedBody(r, parameters.timestamp, scope.value, parameters.signature, verifier, hasTrailingHeaderWithSignature, skipChunkValidation)
 	}
 
 	return &accessKeyId, isSignatureValid
+}
+
+// decodeAwsChunkedBody replaces the aws-chunked request body by its decoded
+// payload and rewrites the transport headers accordingly.
+func decodeAwsChunkedBody(r *http.Request, timestamp string, scope string, seedSignature string, verifier signatureVerifier, hasTrailingHeaderWithSignature bool, skipChunkValidation bool) {
+	contentSHA256 := r.Header.Get(contentSHA256Header)
+	// aws-chunked is a transport encoding, not object metadata: strip it
+	// whether it is the only encoding or the first of several.
+	contentEncodingHeader := stripAwsChunkedContentEncoding(r.Header.Get("Content-Encoding"))
+	if contentEncodingHeader != "" {
+		r.Header.Set("Content-Encoding", contentEncodingHeader)
+	} else {
+		r.Header.Del("Content-Encoding")
+	}
+	r.Header.Set("Content-Length", r.Header.Get("x-amz-decoded-content-length"))
+	r.Header.Del("x-amz-decoded-content-length")
+	trailingHeader := contentSHA256 == contentSHA256StreamingUnsignedPayloadTrailing || contentSHA256 == contentSHA256StreamingPayloadTrailing || contentSHA256 == contentSHA256StreamingECDSAPayloadTrailing
+	trailerChecksumName := strings.ToLower(strings.TrimSpace(r.Header.Get(trailerHeader)))
+	r.Body = newAwsChunkReadCloser(r.Context(), r.Body, timestamp, scope, seedSignature, verifier, trailingHeader, hasTrailingHeaderWithSignature, skipChunkValidation, trailerChecksumName)
+}
+
+// decodeUnauthenticatedAwsChunkedBody decodes the aws-chunked body of a request
+// that carries no SigV4 credentials (anonymous request, or authentication
+// disabled). Without a signing key the chunk signatures and the trailer
+// signature cannot be verified; the framing and the trailer checksum still are.
+func decodeUnauthenticatedAwsChunkedBody(r *http.Request) {
+	if !hasAwsChunkedContentEncoding(r.Header.Get("Content-Encoding")) {
+		return
+	}
+	slog.DebugContext(r.Context(), "Unauthenticated request is using AWS Chunked Transfer Encoding")
+	decodeAwsChunkedBody(r, "", "", "", signatureVerifier{}, false, true)
+}
+
+// MakeAwsChunkedDecodingMiddleware decodes aws-chunked request bodies when no
+// signature middleware is installed (authentication disabled), so that uploads
+// store the payload and not the chunk framing.
+func MakeAwsChunkedDecodingMiddleware(next http.Handler) http.Handler {
+	return http.HandlerFunc(func(w http.ResponseWriter, r *http.Request) {
+		decodeUnauthenticatedAwsChunkedBody(r)
+		next.ServeHTTP(w, r)
+	})
 }
 
 type awsChunkReadCloser struct {
@@ -1061,6 +1090,7 @@ func MakeSignatureMiddleware(validCredentials []Credentials, region string, next
 			ctx := context.WithValue(r.Context(), IsAuthenticatedContextKey{}, false)
 			ctx = context.WithValue(ctx, AuthTypeContextKey{}, authTypeForRequest(r))
 			r = r.Clone(ctx)
+			decodeUnauthenticatedAwsChunkedBody(r)
 			next.ServeHTTP(w, r)
 			return
 		}
